@@ -552,10 +552,16 @@ func compileV2Metadata(tables []TableMetadata, logger StdLogger) {
 
 		for _, columnName := range table.OrderedColumns {
 			column := table.Columns[columnName]
+			// the position comes from the schema tables, dont trust it as an index
+			idx := column.ComponentIndex
 			if column.Kind == ColumnPartitionKey {
-				table.PartitionKey[column.ComponentIndex] = column
+				if idx >= 0 && idx < len(table.PartitionKey) {
+					table.PartitionKey[idx] = column
+				}
 			} else if column.Kind == ColumnClusteringKey {
-				table.ClusteringColumns[column.ComponentIndex] = column
+				if idx >= 0 && idx < len(table.ClusteringColumns) {
+					table.ClusteringColumns[idx] = column
+				}
 			}
 		}
 	}
